@@ -40,6 +40,38 @@ fn run_case(case: &Value) -> Value {
             json!({"offer": o.to_string(), "spread": s.to_string(), "c": c.to_string()})
         }
         "bn" => bn_case(case),
+        "assert_operations" => {
+            // route shape check on abstract asset labels: "n:<denom>" native, "t:<addr>" cw20
+            let mk = |s: &str| -> haloswap::asset::AssetInfo {
+                if let Some(d) = s.strip_prefix("n:") { haloswap::asset::AssetInfo::NativeToken { denom: d.to_string() } } else { haloswap::asset::AssetInfo::Token { contract_addr: s[2..].to_string() } }
+            };
+            let ops: Vec<haloswap::router::SwapOperation> = case["ops"].as_array().unwrap().iter().map(|h| haloswap::router::SwapOperation::HaloSwap {
+                offer_asset_info: mk(h[0].as_str().unwrap()), ask_asset_info: mk(h[1].as_str().unwrap()) }).collect();
+            json!({"accepted": halo_router::assert::assert_operations(&ops).is_ok()})
+        }
+        "max_spread" => {
+            let od = |v: &Value| -> Option<cosmwasm_std::Decimal> { if v.is_null() { None } else { Some(cosmwasm_std::Decimal::from_atomics(Uint128::from(u128_of(v)), 18).unwrap()) } };
+            let asset = |amt: &Value| haloswap::asset::Asset { info: haloswap::asset::AssetInfo::NativeToken { denom: "x".to_string() }, amount: Uint128::from(u128_of(amt)) };
+            let r = halo_pair::assert::assert_max_spread(od(&case["belief_price"]), od(&case["max_spread"]), asset(&case["offer"]), asset(&case["ret"]), Uint128::from(u128_of(&case["spread"])),
+                case["od"].as_u64().unwrap() as u8, case["rd"].as_u64().unwrap() as u8);
+            match r { Ok(()) => json!({"r": "ok"}), Err(haloswap::error::ContractError::MaxSpreadAssertion {}) => json!({"r": "guard"}), Err(e) => json!({"r": "err", "e": e.to_string()}) }
+        }
+        "slippage" => {
+            let t = if case["t"].is_null() { None } else { Some(cosmwasm_std::Decimal::from_atomics(Uint128::from(u128_of(&case["t"])), 18).unwrap()) };
+            let asset = |amt: &Value| haloswap::asset::Asset { info: haloswap::asset::AssetInfo::NativeToken { denom: "x".to_string() }, amount: Uint128::from(u128_of(amt)) };
+            let r = halo_pair::assert::assert_slippage_tolerance(&t, &[Uint128::from(u128_of(&case["d0"])), Uint128::from(u128_of(&case["d1"]))], &[asset(&case["r0"]), asset(&case["r1"])]);
+            match r { Ok(()) => json!({"r": "ok"}), Err(haloswap::error::ContractError::MaxSlippageAssertion {}) => json!({"r": "guard"}), Err(e) => json!({"r": "err", "e": e.to_string()}) }
+        }
+        "pair_key" => {
+            // registry key of two raw identifiers: {"n": "<denom>"} native, {"t": "<hex canonical bytes>"} cw20
+            let mk = |v: &Value| -> haloswap::asset::AssetInfoRaw {
+                if let Some(d) = v.get("n") { haloswap::asset::AssetInfoRaw::NativeToken { denom: d.as_str().unwrap().to_string() } }
+                else { let h = v["t"].as_str().unwrap(); let bytes: Vec<u8> = (0..h.len() / 2).map(|i| u8::from_str_radix(&h[2 * i..2 * i + 2], 16).unwrap()).collect();
+                       haloswap::asset::AssetInfoRaw::Token { contract_addr: cosmwasm_std::CanonicalAddr::from(bytes) } }
+            };
+            let k = halo_factory::state::pair_key(&[mk(&case["a"]), mk(&case["b"])]);
+            json!({"key": k.iter().map(|b| format!("{:02x}", b)).collect::<String>()})
+        }
         _ => world::run_case(kind, case),
     }
 }
